@@ -114,6 +114,11 @@ def streams(tier, rng, P, only=None, cases=None):
             cs.append(dict(req="compile2 %s %s" % (hx(lead + t), hx(lead + p)), src=lead + t, plain=lead + p, show=lead + t, changes=ch, key="m%d" % i))
         for j, (a, b) in enumerate([("l4 c d&e g n100", "l4 c d e g n100"), ("l4 Slur(1) r c&e g n100", "l4 Slur(1) r c e g n100")]):
             cs.append(dict(req="compile2 %s %s" % (hx(a), hx(b)), src=a, plain=b, show=a, changes=1, key="mfixed%d" % j))
+        # a slur that only rises (falls) never bends below (above) the centre, however wide the interval: at the end of the 14-bit range the bend stays there
+        for j, (a, b, d) in enumerate([("l4 Slur(1) c&>c n100", "l4 Slur(1) c >c n100", 1), ("Slur(1,0) l4 c&g&>e&>e n100", "Slur(1,0) l4 c g >e >e n100", 1),
+                                       ("Slur(0,48) l4 c&>c n100", "Slur(0,48) l4 c >c n100", 1), ("l4 Slur(1) o4 c&>>c n100", "l4 Slur(1) o4 c >>c n100", 1),
+                                       ("l4 Slur(1) o6 c&<<c n100", "l4 Slur(1) o6 c <<c n100", -1), ("l4 Slur(1) o6 c&<c&<c n100", "l4 Slur(1) o6 c <c <c n100", -1)]):
+            cs.append(dict(req="compile2 %s %s" % (hx(a), hx(b)), src=a, plain=b, show=a, changes=1, dir=d, key="mdir%d" % j))
         return cs
     def m_judge(c, impl, m):
         st, f = impl
@@ -124,6 +129,11 @@ def streams(tier, rng, P, only=None, cases=None):
             sa = [e[0] for e in a if e[1] == "on" and e[2][1] == 100]; sb = [e[0] for e in b if e[1] == "on" and e[2][1] == 100]
             if sa != sb: return ("violation", "track %d: the notes after the groups start at ticks %s in the file, without & at %s" % (ti, sa[:8], sb[:8]))
             if any(e[1] == "bad" for e in a): return ("violation", "track %d of the tied program is not a legal event stream" % ti)
+            if c.get("dir"):
+                pbs = [e[2][1] + 128 * e[3] for e in a if e[1] == "pb"]
+                if not pbs: return ("violation", "a slur in bend mode wrote no bend")
+                if c["dir"] > 0 and min(pbs) < 8192: return ("violation", "a slur that only rises bends below the centre (%d): the value wrapped" % min(pbs))
+                if c["dir"] < 0 and max(pbs) > 8192: return ("violation", "a slur that only falls bends above the centre (%d): the value wrapped" % max(pbs))
         return None
     s2 = Stream("tiemidi", cases if (cases and only == "tiemidi") else mk_m(), lambda c, st, f: [], m_judge,
                 lambda c, i, m: i[1].get("bin1") if i[0] == "ok" and c["changes"] >= 1 else None, "tied vs plain program in the file: ticks of the notes after the groups", timeout_case=20.0)
